@@ -7,6 +7,7 @@ import Verif.Spec.FixArith
 Driver for stream `fix` (C15; fixed-point part of C13).
 
   fix <Type> <Method> <rawA> <rawB> [engine]  =>  ok:<raw> | err:<kind> | nil | panic
+  fix <Type> MulDiv <rule> <rawA> <rawB> <rawC> [engine]  =>  same   (`multiplyDivide`, judged by `specMulDiv`)
 
 The real Go method's answer is judged (1) against the **spec** `Verif.Spec.FixArith` (exact rational
 arithmetic on the raw scaled integers: `specFix` for `+ − * /`, `specFixSat` for the saturating members;
@@ -49,8 +50,55 @@ def vclass (go : String) (s : Except NumErr Int) : String :=
   else if go.startsWith "ok:" then (match s with | .ok _ => "wrong-value" | .error _ => "missing-error")
   else (match s with | .ok _ => "spurious-error" | .error _ => "wrong-error-kind")
 
+def is128 : FTy → Bool
+  | .fix128 | .ufix128 => true
+  | _ => false
+
+/-- does the Go answer have the shape of the known defect of the library's 128-bit division, for the
+    exact quotient `n / d`?  Second quotient word `2^64 − 2`: anything (garbage value, panic, internal
+    error).  Low word `2^64 − 2`: a magnitude one or two units above the true truncated quotient, or a
+    range error when that leaves the range. -/
+def div128Known (T : FTy) (n d : Int) (go : String) : Bool :=
+  is128 T && d != 0 &&
+  (div128SuspectHigh n.natAbs d.natAbs ||
+   (div128SuspectLow n.natAbs d.natAbs &&
+     (let q : Int := (n.natAbs / d.natAbs : Nat)
+      match (if go.startsWith "ok:" then (go.drop 3).toString.toInt? else none) with
+      | some v => decide (v.natAbs = q + 1 ∨ v.natAbs = q + 2)
+      | none => (go == "err:overflow" || go == "err:underflow") &&
+                decide ((340282366920938463463374607431768211455 : Int) < 2 * (q + 2)))))
+
+def div128Class := "fixlib-div128-quotient-word-assumed-all-ones"
+
+def parseRule : String → Option Rounding
+  | "towardZero" | "default" => some .towardZero   -- the rule when the argument is omitted
+  | "awayFromZero" => some .awayFromZero
+  | "nearestHalfAway" => some .nearestHalfAway | "nearestHalfEven" => some .nearestHalfEven
+  | _ => none
+
+/-- `multiplyDivide`: spec only (the computation is the external library's) -/
+def judgeMulDiv (tyName rule sa sb sc : String) (rest : List String) (go : String) : Verdict :=
+  match parseFTy tyName, parseRule rule, sa.toInt?, sb.toInt?, sc.toInt? with
+  | some T, some r, some a, some b, some c =>
+    if ¬ (inRange T.raw a ∧ inRange T.raw b ∧ inRange T.raw c) then .skip "operand-out-of-range" else
+    let via := match rest with | e :: _ => ["via-script-" ++ e] | [] => []
+    let s := specMulDiv T r a b c
+    let rem := Int.tmod (a * b) c
+    let shape := if c = 0 then "c-zero" else if rem = 0 then "exact"
+      else if 2 * rem.natAbs = c.natAbs then "tie" else if 2 * rem.natAbs < c.natAbs then "below-half" else "above-half"
+    let tags := via ++ [tyName, "m-MulDiv", "rule-" ++ rule, shape,
+      (match s with | .ok _ => "r-ok" | .error e => "r-" ++ e.name)] ++
+      (if c.natAbs = T.scale.natAbs then ["c-one"] else []) ++
+      (if c ≠ 0 ∧ roundDiv r (a * b) c ≠ Int.tdiv (a * b) c then ["rounded-away"] else []) ++
+      (if c ≠ 0 ∧ rem ≠ 0 then ["!nt"] else [])
+    if go != renderRes s then
+      .violation (if div128Known T (a * b) c go then div128Class else vclass go s) (renderRes s) tags
+    else .ok tags
+  | _, _, _, _, _ => .skip "bad-op"
+
 def judge (op : List String) (go : String) : Verdict :=
   match op with
+  | "fix" :: tyName :: "MulDiv" :: rule :: sa :: sb :: sc :: rest => judgeMulDiv tyName rule sa sb sc rest go
   | "fix" :: tyName :: method :: sa :: sb :: rest =>
     match parseFTy tyName, opOf method, sa.toInt?, sb.toInt? with
     | some T, some (o, sat), some a, some b =>
@@ -90,7 +138,8 @@ def judge (op : List String) (go : String) : Verdict :=
           | _ => false
         let tags := if truncated then "truncated" :: tags else tags
         let tags := if a.natAbs > 1 ∧ b.natAbs > 1 then "!nt" :: tags else tags
-        if go != renderRes s then .violation (vclass go s) (renderRes s) tags
+        if go != renderRes s then
+          .violation (if o == .div && div128Known T (a * T.scale) b go then div128Class else vclass go s) (renderRes s) tags
         else cmpModel tags
     | _, _, _, _ => .skip "bad-op"
   | _ => .skip "unknown-op"
